@@ -45,6 +45,96 @@ theorem blocksOK_storePP {a : Node} (ppm : PPMsg) (h : BlocksOK a) (hb : ∀ b, 
   · exact h x hx b hxb
   · exact hb b hxb
 
+/-! ## own votes, and the NEW_VIEWs a correct leader sends (C11 at the network level) -/
+
+/-- the node's own logged votes pass every check a peer applies to a received vote -/
+def OwnVotesOK (n : Node) : Prop := ∀ m ∈ n.store.vcs, m.c.sender = mySig n.cfg → C11.VoteChecked n m
+
+/-- the block-body invariants of one node -/
+structure Body (n : Node) : Prop where
+  blocks : BlocksOK n
+  vcblocks : VCBlocksOK n
+  ownVotes : OwnVotesOK n
+
+/-- two configurations of the same term: same committee, instance and height (`me` may differ) -/
+def CfgSim (c d : Cfg) : Prop := c.members = d.members ∧ c.inst = d.inst ∧ c.height = d.height
+
+/-- the NEW_VIEW is a valid certificate (`C07.ValidCertificate`: everything `handleNewView` checks
+before adopting it) for every node of this term whose view is not above the NEW_VIEW's -/
+def NVGood (c : Cfg) (nv : NVMsg) : Prop :=
+  nv.pp.header.mtype = tPP ∧ nv.pp.sender = nv.sender
+  ∧ ∀ peer : Node, CfgSim peer.cfg c → ¬ peer.view > nv.header.view → C07.ValidCertificate peer nv
+
+/-- the certificate handed to the commit callback: provided the block has this term's height (the
+other half of the consumer contract A2), the block proof generated from the COMMITs passes strict
+`ValidateBlockConsensus` (the C02 model) of every node with this instance id and committee -/
+def CertOK (c : Cfg) (blk : Block) (cs : List CMsg) : Prop :=
+  blk.height = c.height →
+    ∃ p, BlockProof.generate cs true = some p ∧
+      BlockProof.validate ⟨false, some blk, some p, c.inst, c.members, false⟩ = .ok
+
+/-- what a block of effects may contain: commit callbacks whose block commits to the certified hash,
+and NEW_VIEWs every correct peer accepts as a certificate -/
+def OutsOK (c : Cfg) (l : List Out) : Prop :=
+  (∀ blk cs, Out.commit blk cs ∈ l → blk.hash = commitHash cs)
+  ∧ (∀ rs nv, Out.send rs (.newView nv) ∈ l → NVGood c nv)
+  ∧ (∀ blk cs, Out.commit blk cs ∈ l → CertOK c blk cs)
+
+theorem outsOK_nil (c : Cfg) : OutsOK c [] := by
+  refine ⟨?_, ?_, ?_⟩
+  · intro _ _ h; cases h
+  · intro _ _ h; cases h
+  · intro _ _ h; cases h
+
+theorem outsOK_append {c : Cfg} {l1 l2 : List Out} (h1 : OutsOK c l1) (h2 : OutsOK c l2) : OutsOK c (l1 ++ l2) :=
+  ⟨fun blk cs hm => (List.mem_append.mp hm).elim (h1.1 blk cs) (h2.1 blk cs),
+   fun rs nv hm => (List.mem_append.mp hm).elim (h1.2.1 rs nv) (h2.2.1 rs nv),
+   fun blk cs hm => (List.mem_append.mp hm).elim (h1.2.2 blk cs) (h2.2.2 blk cs)⟩
+
+theorem cfgSim_eq {c d : Cfg} (h : CfgSim c d) : c = { d with me := c.me } := by
+  obtain ⟨h1, h2, h3⟩ := h
+  cases c; cases d
+  simp only at h1 h2 h3
+  simp [h1, h2, h3]
+
+theorem isViewChangeValid_sim (p q : Node) (h : CfgSim p.cfg q.cfg) (vc : VCContent) :
+    isViewChangeValid p vc = isViewChangeValid q vc := by
+  have := cfgSim_eq h
+  unfold isViewChangeValid
+  rw [this]
+  rfl
+
+theorem validCertificate_sim {p q : Node} (h : CfgSim p.cfg q.cfg) (hv : p.view = q.view) (nv : NVMsg)
+    (hq : C07.ValidCertificate q nv) : C07.ValidCertificate p nv := by
+  have he := cfgSim_eq h
+  obtain ⟨a1, a2, a3, a4, a5, a6, a7, a8, a9, a10, a11⟩ := hq
+  refine ⟨a1, by rw [hv]; exact a2, a3, ?_, ?_, ?_, a7, a8, a9, by rw [h.2.1]; exact a10, a11⟩
+  · rw [he]; exact a4
+  · rw [he]; exact a5
+  · intro vc hvc
+    obtain ⟨b1, b2, b3⟩ := a6 vc hvc
+    exact ⟨b1, b2, by rw [isViewChangeValid_sim p q h]; exact b3⟩
+
+theorem ownVote_eq (n : Node) : ownVote n = C09.voteOnTimeout n := by
+  unfold ownVote C09.voteOnTimeout
+  rw [← voteProof_eq, ← voteBlock_eq]
+  rfl
+
+theorem ownVotesOK_congr (a b : Node) (hc : b.cfg = a.cfg) (hs : b.store.vcs = a.store.vcs) (h : OwnVotesOK a) : OwnVotesOK b := by
+  intro m hm hsig
+  rw [hs] at hm
+  rw [hc] at hsig
+  have := h m hm hsig
+  unfold C11.VoteChecked at this ⊢
+  rw [C11.isViewChangeValid_cfg b a hc]
+  exact this
+
+theorem isMember_of_mem (C : NetCfg) (i : Nat) (hm : ∃ m ∈ C.ms, m.id = i) : isMember (C.cfg i) (C.cfg i).me = true := by
+  obtain ⟨m, hm, hid⟩ := hm
+  unfold isMember
+  rw [List.any_eq_true]
+  exact ⟨m, hm, by simpa [NetCfg.cfg] using hid⟩
+
 /-- **one atomic block keeps the block-body invariants** (under A2 for this step), and a commit
 callback gets a block that commits to the certified hash -/
 theorem blk_blocks (hwf : WF C) {e : Event} {spi0 : List Spi} {i : Nat} {a b : Node} {l : List Out} {g : List LEv} {T : List LEv} {H : List Ev}
@@ -188,5 +278,214 @@ theorem blk_blocks (hwf : WF C) {e : Event} {spi0 : List Spi} {i : Nat} {a b : N
           rw [hb'] at hxb
           rw [e3]
           exact hbo ppm hin bk hxb
+
+/-- the votes a node has logged for its own view reach a quorum only if there is one: the list is not empty -/
+theorem quorum_mem (hwf : WF C) {i : Nat} {a : Node} (hcfg : a.cfg = C.cfg i) {l : List VCMsg}
+    (hq : isQuorum a.cfg (l.map (·.c.sender.id)) = true) : ∃ m, m ∈ l := by
+  cases l with
+  | nil =>
+    exfalso
+    exact isQuorum_ne_nil a.cfg (by rw [hcfg]; exact hwf.fit) _ hq rfl
+  | cons m _ => exact ⟨m, List.mem_cons_self ..⟩
+
+/-- **one atomic block keeps `OwnVotesOK`, and every NEW_VIEW it sends is a valid certificate for
+every correct peer whose view is not higher** -/
+theorem blk_votes (hwf : WF C) {e : Event} {spi0 : List Spi} {i : Nat} {a b : Node} {l : List Out} {g : List LEv} {T : List LEv} {H : List Ev}
+    (hb : Blk e spi0 a b l g) (hgate : Gate (C.cfg i) e) (hmem : ∃ m ∈ C.ms, m.id = i)
+    (hc : Core C H i a T) (hua : Univ a) (hbo : BlocksOK a) (hov : OwnVotesOK a) :
+    OwnVotesOK b ∧ ∀ rs nv, Out.send rs (.newView nv) ∈ l → NVGood a.cfg nv := by
+  cases hb with
+  | quiet hq hs hl =>
+    refine ⟨ownVotesOK_congr a _ hq.cfg (by rw [hs]) hov, ?_⟩
+    intro rs nv hm
+    have := hl _ hm
+    simp [stmtOf] at this
+  | log op he =>
+    refine ⟨?_, fun _ _ hm => by cases hm⟩
+    cases op with
+    | pp m => exact ownVotesOK_congr a _ rfl (storePP_vcs _ _) hov
+    | prepare m => exact ownVotesOK_congr a _ rfl (storePrepare_vcs _ _) hov
+    | commit m => exact ownVotesOK_congr a _ rfl (storeCommit_vcs _ _) hov
+    | vc m =>
+      obtain ⟨hnotme, _⟩ := gate_vc he hgate
+      intro x hx hsig
+      rcases mem_storeVC hx with hx' | rfl
+      · exact hov x hx' hsig
+      · exfalso; apply hnotme
+        have : x.c.sender = mySig a.cfg := hsig
+        rw [this, hc.cfg]; rfl
+  | accept ppm f rcpt hh hv' hnone hnl hlock hsrc hval =>
+    refine ⟨ownVotesOK_congr a _ rfl ?_ hov, fun _ _ hm => by simp at hm⟩
+    show ((a.store.storePP ppm).storePrepare _).vcs = _
+    rw [storePrepare_vcs, storePP_vcs]
+  | prepared v hash rcpt hv' hnot hpp hproof =>
+    exact ⟨ownVotesOK_congr a _ rfl (storeCommit_vcs _ _) hov, fun _ _ hm => by simp at hm⟩
+  | late h v hash rcpt hq => exact ⟨hov, fun _ _ hm => by simp at hm⟩
+  | decide blk cs h v hash hq hs hcs hcq hpp =>
+    exact ⟨ownVotesOK_congr a _ hq.cfg (by rw [hs]) hov, fun _ _ hm => by simp at hm⟩
+  | voteSend vc rcpt hv' hp hpv hown => exact ⟨hov, fun _ _ hm => by simp at hm⟩
+  | voteStore vc hv' hp hown hpv hbk hvc =>
+    refine ⟨?_, fun _ _ hm => by cases hm⟩
+    intro x hx hsig
+    rcases mem_storeVC hx with hx' | rfl
+    · exact hov x hx' hsig
+    · have hme : isMember a.cfg a.cfg.me = true := by rw [hc.cfg]; exact isMember_of_mem C i hmem
+      have hvalid : isViewChangeValid a (C09.voteOnTimeout a).c = true :=
+        C11.own_vote_is_valid_for_peers a a rfl hme hua.prepares hua.proposals
+          (fun pv hpr => ⟨hpv pv hpr, fun pm hpm hvw hs => by have := hua.ownNL pm hpm hs; rw [hvw] at this; exact this⟩)
+          (fun ppm hm => (hua.clean.pps ppm hm).1) (fun pm hm => (hua.clean.prepares pm hm).1)
+      rw [← ownVote_eq, ← hvc] at hvalid
+      refine ⟨hvalid, ?_, ?_⟩
+      · rintro ⟨h1, h2⟩
+        rcases vote_payload hc.ginv hc.prepBlock with ⟨_, hn, _⟩ | ⟨pv, p', b', ppm, _, _, _, hsb, hbs, _⟩
+        · rw [hp, hn] at h2; cases h2
+        · rw [hbk, hsb] at h1
+          rw [Option.isNone_iff_eq_none] at h1
+          rw [h1] at hbs; cases hbs
+      · intro hsome
+        rcases vote_payload hc.ginv hc.prepBlock with ⟨_, _, hn⟩ | ⟨pv, p', b', ppm, _, hex, hs, hsb, hbs, hg, _, e2, _, _⟩
+        · rw [hbk, hn] at hsome; cases hsome
+        · have hb' : b' = ppm.block := by
+            obtain ⟨ppm2, _, hg2, _, _, _, _, _, e5⟩ := extractProof_shape a pv p' b' hex
+            rw [hg] at hg2
+            rw [e5, Option.some.inj hg2]
+          obtain ⟨hin, _, _⟩ := getPP_spec hg
+          rw [hbk, hsb, hp, hs]
+          cases hbb : b' with
+          | none => rw [hbb] at hbs; cases hbs
+          | some bk =>
+            have := hbo ppm hin bk (by rw [← hb', hbb])
+            simp only [commitmentOk, proofHash, beq_iff_eq]
+            rw [this, e2]
+  | propose ppm f o hh hv' hnone hlnv hf ho hown hsrc hreq hblk hmsg =>
+    refine ⟨ownVotesOK_congr a _ rfl (storePP_vcs _ _) hov, ?_⟩
+    intro rs nv hm
+    simp only [List.mem_singleton] at hm
+    rcases hmsg with ⟨rcpt, ho'⟩ | ⟨rcpt, nvm, h, ho', hpp, hvotes, hexact, hlead, hq, hsel⟩
+    · rw [ho'] at hm; cases hm
+    rw [ho'] at hm
+    simp only [Out.send.injEq, Message.newView.injEq] at hm
+    rw [hm.2]
+    -- the votes counted are those of this term's height
+    have hh' : h = a.cfg.height := by
+      obtain ⟨m, hm⟩ := quorum_mem hwf hc.cfg hq
+      unfold Store.getVCs at hm
+      rw [List.mem_filter] at hm
+      have h2 := hm.2
+      simp only [Bool.and_eq_true, beq_iff_eq] at h2
+      rw [← h2.1]; exact (hua.clean.vcs m hm.1).2
+    subst hh'
+    have hchk : ∀ m ∈ a.store.getVCs a.cfg.height a.view, C11.VoteChecked a m := by
+      intro m hm
+      have hm' : m ∈ a.store.vcs := by unfold Store.getVCs at hm; exact (List.mem_filter.mp hm).1
+      rcases hua.vcs.auth m hm' with c | c
+      · exact c
+      · exact hov m hm' c
+    refine ⟨by rw [hexact]; exact hown.2.2, by rw [hexact]; exact hown.1, ?_⟩
+    intro peer hsim hview
+    obtain ⟨bk, hbk, _⟩ := hblk
+    have hex : C11.NewViewExact a.cfg a.view (a.store.getVCs a.cfg.height a.view) o := by
+      intro rs' nv' he'
+      rw [ho'] at he'
+      simp only [Out.send.injEq, Message.newView.injEq] at he'
+      obtain ⟨_, rfl⟩ := he'
+      refine ⟨bk, ppm.c.header.hash, ?_, ?_⟩
+      · rw [hexact, hbk]
+        have : ppm.c = ⟨mkRef a.cfg tPP a.view ppm.c.header.hash, mySig a.cfg⟩ := by
+          obtain ⟨⟨⟨t, ins, ht, vw, hs⟩, sd⟩, blk⟩ := ppm
+          simp only at hown hh hv' ⊢
+          obtain ⟨o1, o2, o3⟩ := hown
+          subst o1 o2 o3 hh hv'
+          rfl
+        rw [← this]
+      · cases hl : latestBlockFromVCs (a.store.getVCs a.cfg.height a.view) with
+        | none =>
+          rw [hl] at hsel
+          exact hsel bk hbk
+        | some x =>
+          obtain ⟨b', h''⟩ := x
+          rw [hl] at hsel
+          simp only at hsel ⊢
+          rw [hbk] at hsel
+          exact ⟨Option.some.inj hsel.1, hsel.2⟩
+    have hview' : ¬ ({ peer with cfg := a.cfg } : Node).view > a.view := by
+      have : nvm.header.view = a.view := by rw [hexact]
+      rw [this] at hview; exact hview
+    have hcert : C07.ValidCertificate ({ peer with cfg := a.cfg } : Node) nvm :=
+      C11.elected_newview_is_valid_certificate a.cfg a.view _ _ o hex rcpt nvm ho' rfl hview' hlead hq
+        (by
+          intro m hm
+          have hf := hm
+          unfold Store.getVCs at hf
+          have h2 := (List.mem_filter.mp hf).2
+          simp only [Bool.and_eq_true, beq_iff_eq] at h2
+          refine ⟨h2.1, h2.2, ?_⟩
+          rw [C11.isViewChangeValid_cfg ({ peer with cfg := a.cfg } : Node) a rfl]
+          exact (hchk m hm).1)
+        (by
+          have := getVCs_nodup a hua.vcs a.cfg.height a.view
+          rw [List.map_map] at this
+          exact this)
+        (by
+          intro m hm
+          have hm' : m ∈ a.store.vcs := by unfold Store.getVCs at hm; exact (List.mem_filter.mp hm).1
+          exact ⟨hc.vcb m hm', (hchk m hm).2.2⟩)
+    exact validCertificate_sim (q := { peer with cfg := a.cfg }) hsim rfl nvm hcert
+
+/-- **the certificate of a commit callback is accepted by strict ValidateBlockConsensus** -/
+theorem blk_cert (hwf : WF C) {e : Event} {spi0 : List Spi} {i : Nat} {a b : Node} {l : List Out} {g : List LEv} {T : List LEv} {H : List Ev}
+    (hb : Blk e spi0 a b l g) (hc : Core C H i a T) (hua : Univ a) (hbo : BlocksOK a) :
+    ∀ blk cs, Out.commit blk cs ∈ l → CertOK a.cfg blk cs := by
+  cases hb with
+  | quiet hq hs hl =>
+    intro blk cs hm
+    have := hl _ hm
+    simp [stmtOf] at this
+  | log op he => intro _ _ hm; cases hm
+  | accept ppm f rcpt => intro _ _ hm; simp at hm
+  | prepared v hash rcpt => intro _ _ hm; simp at hm
+  | late h v hash rcpt hq => intro _ _ hm; simp at hm
+  | voteSend vc rcpt => intro _ _ hm; simp at hm
+  | voteStore vc => intro _ _ hm; cases hm
+  | propose ppm f o hh hv' hnone hlnv hf ho =>
+    intro blk cs hm
+    simp only [List.mem_singleton] at hm
+    rw [← hm] at ho
+    simp [stmtOf] at ho
+  | decide blk cs h v hash hq hs hcs hcq hpp =>
+    intro blk' cs' hm hheight
+    simp only [List.mem_singleton, Out.commit.injEq] at hm
+    obtain ⟨rfl, rfl⟩ := hm
+    obtain ⟨ppm, hg, hbk, hh⟩ := hpp
+    obtain ⟨hin, _, _⟩ := getPP_spec hg
+    have h1 := hbo ppm hin blk' hbk
+    have hfit : C06.Fits a.cfg.members := by rw [hc.cfg]; exact hwf.fit
+    rw [hcs] at hcq
+    -- the commits are of this term's height
+    have hh' : h = a.cfg.height := by
+      cases hl : a.store.getCommits h v hash with
+      | nil =>
+        exfalso
+        rw [hl] at hcq
+        exact isQuorum_ne_nil a.cfg hfit _ hcq rfl
+      | cons c rest =>
+        have hm : c ∈ a.store.getCommits h v hash := by rw [hl]; exact List.mem_cons_self ..
+        unfold Store.getCommits at hm
+        rw [List.mem_filter] at hm
+        have h2 := hm.2
+        simp only [Bool.and_eq_true, beq_iff_eq] at h2
+        rw [← h2.1.1]; exact (hua.clean.commits c hm.1).2
+    rw [hcs]
+    exact C03.stored_quorum_validates a h v hash blk' hua.commits hcq hfit.pos hfit.fits
+      (fun cm hm => (hua.clean.commits cm hm).1) ⟨by rw [h1, hh], by rw [hheight, hh']⟩
+
+/-- both halves together -/
+theorem blk_body (hwf : WF C) {e : Event} {spi0 : List Spi} {i : Nat} {a b : Node} {l : List Out} {g : List LEv} {T : List LEv} {H : List Ev}
+    (hb : Blk e spi0 a b l g) (hgate : Gate (C.cfg i) e) (hA2 : SpiA2 e spi0) (hmem : ∃ m ∈ C.ms, m.id = i)
+    (hc : Core C H i a T) (hua : Univ a) (hub : Univ b) (hbody : Body a) :
+    Body b ∧ OutsOK a.cfg l := by
+  obtain ⟨b1, b2, b3⟩ := blk_blocks hwf hb hgate hA2 hc hub hbody.blocks hbody.vcblocks
+  obtain ⟨v1, v2⟩ := blk_votes hwf hb hgate hmem hc hua hbody.blocks hbody.ownVotes
+  exact ⟨⟨b1, b2, v1⟩, b3, v2, blk_cert hwf hb hc hua hbody.blocks⟩
 
 end LeanHelix.Net
